@@ -152,6 +152,29 @@ struct FnCfg {
 	/// no canary for this fn (e.g. spec-less helper)
 	#[serde(default)]
 	no_canary: bool,
+	/// L26: `X.iter().take_while(|P| BODY).cloned().collect()` (BODY may update captured locals — an `FnMut` closure, outside
+	/// the Verus dialect) is emitted as the loop that defines it:
+	/// `{ let mut vx_tw = Vec::new(); let mut vx_twi: usize = 0; while vx_twi < X.len() { let P = &X[vx_twi]; let vx_keep: bool = BODY;
+	///    if !vx_keep { break; } vx_tw.push(vf_clone(P)); vx_twi = vx_twi + 1; } vx_tw }` — BODY verbatim, evaluated once per
+	/// element in order until it first yields false (std semantics of take_while / cloned / collect: assumption)
+	#[serde(default)]
+	take_while: Option<TakeWhileCfg>,
+}
+
+#[derive(Deserialize, Clone, Debug, Default)]
+#[serde(deny_unknown_fields)]
+struct TakeWhileCfg {
+	#[serde(default)]
+	invariant: Vec<Clause>,
+	#[serde(default)]
+	invariant_except_break: Vec<Clause>,
+	#[serde(default)]
+	ensures: Vec<Clause>,
+	/// proof text at the start of the loop body / after the loop (before the collected vector is yielded)
+	#[serde(default)]
+	proof_body_start: Option<String>,
+	#[serde(default)]
+	proof_after: Option<String>,
 }
 
 #[derive(Deserialize, Clone, Debug)]
@@ -1112,6 +1135,48 @@ impl<'ast, 'c> Visit<'ast> for FnVisitor<'c> {
 				self.push(ws, we, vec![Part::Text("vf_str_to_string(".into()), Part::Src(rs, re), Part::Text(")".into())], "L13");
 				return;
 			}
+		}
+		if m == "collect" && mc.args.is_empty() && self.cfg.take_while.is_some() {
+			// L26 (see FnCfg::take_while)
+			if let syn::Expr::MethodCall(cl) = &*mc.receiver {
+				if cl.method == "cloned" && cl.args.is_empty() {
+					if let syn::Expr::MethodCall(tw) = &*cl.receiver {
+						if tw.method == "take_while" && tw.args.len() == 1 {
+							if let (syn::Expr::MethodCall(it), syn::Expr::Closure(c)) = (&*tw.receiver, &tw.args[0]) {
+								if it.method == "iter" && it.args.is_empty() && c.inputs.len() == 1 {
+									let twc = self.cfg.take_while.clone().unwrap();
+									let (xs, xe) = br(it.receiver.span());
+									let (ps, pe) = br(c.inputs[0].span());
+									let (bs, be) = br(c.body.span());
+									let x_text = oneline(&self.src[xs..xe]);
+									let mut parts = vec![
+										Part::Text("{ let mut vx_tw = Vec::new(); let mut vx_twi: usize = 0;\nwhile vx_twi < ".to_string()),
+										Part::Src(xs, xe), Part::Text(".len()\n".to_string()),
+									];
+									let mut inv = vec![Clause::Plain(format!("vx_twi <= {}.len()", x_text)), Clause::Plain(format!("vx_tw@ == {}@.take(vx_twi as int)", x_text))];
+									inv.extend(twc.invariant.iter().cloned());
+									parts.extend(self.clause_parts("invariant_except_break", "invariant", &twc.invariant_except_break, "        "));
+									parts.extend(self.clause_parts("invariant", "invariant", &inv, "        "));
+									parts.extend(self.clause_parts("ensures", "invariant", &twc.ensures, "        "));
+									parts.push(Part::Text(format!("\n        decreases {}.len() - vx_twi,\n    {{\n{}\nlet ", x_text, twc.proof_body_start.clone().unwrap_or_default())));
+									parts.push(Part::Src(ps, pe));
+									parts.push(Part::Text(" = &".to_string()));
+									parts.push(Part::Src(xs, xe));
+									parts.push(Part::Text("[vx_twi];\nlet vx_keep: bool = ".to_string()));
+									parts.push(Part::Src(bs, be));
+									parts.push(Part::Text(";\nif !vx_keep { break; }\nvx_tw.push(vf_clone(".to_string()));
+									parts.push(Part::Src(ps, pe));
+									parts.push(Part::Text(format!(")); vx_twi = vx_twi + 1;\n}}\n{}\nvx_tw }}", twc.proof_after.clone().unwrap_or_default())));
+									self.push(ws, we, parts, "L26");
+									syn::visit::visit_expr(self, &c.body);
+									return;
+								}
+							}
+						}
+					}
+				}
+			}
+			die(&format!("{}: take_while lowering (L26) configured but no `X.iter().take_while(|P| B).cloned().collect()` found in that shape", self.fname));
 		}
 		if m == "copy_from_slice" && mc.args.len() == 1 {
 			// L16: X.copy_from_slice(Y) panics unless the lengths are equal
